@@ -39,15 +39,13 @@ class Parser(ExecutableObjectParser[ProgramToExecute]):
 
 
 def _syntax_error_if_not_at_eof(source: parse_source.ParseSource):
-    if source.is_at_eof:
-        return
-    if source.is_at_eol__except_for_space:
-        source.consume_current_line()
-        _syntax_error_if_not_at_eof(source)
-    else:
-        raise ParseException.of_str(
-            'Superfluous arguments of {PROGRAM}: {src}'.format(
-                PROGRAM=syntax_elements.PROGRAM_SYNTAX_ELEMENT.singular_name,
-                src=source.remaining_part_of_current_line
+    while not source.is_at_eof:
+        if source.is_at_eol__except_for_space:
+            source.consume_current_line()
+        else:
+            raise ParseException.of_str(
+                'Superfluous arguments of {PROGRAM}: {src}'.format(
+                    PROGRAM=syntax_elements.PROGRAM_SYNTAX_ELEMENT.singular_name,
+                    src=source.remaining_part_of_current_line
+                )
             )
-        )
